@@ -9,7 +9,7 @@ that file in which, inside those functions only,
           (*VERIF_PTR(n, &(E)))
   (b) every call `f(args)` of a non-builtin function becomes
           (verif_sync(n), f(args))
-  (b') every loop gets `verif_sync` before it and at the end of its body, `verif_resnap` at the start of its body
+  (b') every loop gets `verif_loop_sync` before it, at the end of its body and before each `continue`
   (c) every `return E;` becomes
           return ({ T verif_rv = (E); verif_sync(n); verif_rv; });   (T = the declared return type)
       every `return;` becomes `{ verif_sync(n); return; }` and a void function
@@ -345,12 +345,9 @@ def weave_function(fn, path, src, edits, counter, census, loops=None):
             # the ghost state must be up to date wherever a loop invariant is evaluated:
             # before the loop, at the end of its body, and before every `continue`
             s1 = counter[0]; counter[0] += 2
-            edits.append((lb, 0, -30000, PRE + '{ verif_sync(%d); ' % s1 + POST))
+            edits.append((lb, 0, -30000, PRE + '{ verif_loop_sync(%d); ' % s1 + POST))
             edits.append((le, 1, 30000, PRE + ' }' + POST))
-            edits.append((be - 1, 0, -20000, PRE + 'verif_sync(%d);' % (s1 + 1) + POST))
-            # start of every iteration: the snapshot equals the current state (a no-op in a real execution, where the previous
-            # iteration ended with a sync; it re-establishes that fact after a loop contract's havoc)
-            edits.append((b + 1, 1, 25000, PRE + ' verif_resnap(%d);' % s1 + POST))
+            edits.append((be - 1, 0, -20000, PRE + 'verif_loop_sync(%d);' % (s1 + 1) + POST))
             clause = (loops or {}).get(str(ordinal))
             if clause and '$LOCALS' in clause:
                 # every non-const local visible at the loop head may be assigned by the loop (keeps the frame robust against
@@ -358,6 +355,9 @@ def weave_function(fn, path, src, edits, counter, census, loops=None):
                 vis = [v for sc in scope for v in sc]
                 clause = clause.replace('$LOCALS', ', '.join(vis) if vis else 'G')
             if clause:
+                # the loop-head snapshot flag (rt/verif_point.inc): specs that opt in get it framed and pinned automatically
+                clause = clause.replace('__CPROVER_assigns(', '__CPROVER_assigns(VERIF_LOOP_ASSIGNS ', 1)
+                clause = clause.replace('__CPROVER_loop_invariant(', '__CPROVER_loop_invariant(VERIF_LOOP_INV && ', 1)
                 edits.append((b, 0, -30000, PRE + ' ' + clause + ' ' + POST))
                 stats.setdefault('loop_contracts', []).append(ordinal)
         elif k == 'ContinueStmt':
@@ -366,7 +366,7 @@ def weave_function(fn, path, src, edits, counter, census, loops=None):
                 raise WeaveError('%s: continue not literally in the file' % name)
             m = re.match(r'continue\s*;', src[b:])
             s1 = counter[0]; counter[0] += 1
-            edits.append((b, 0, -10000, PRE + '{ verif_sync(%d); ' % s1 + POST))
+            edits.append((b, 0, -10000, PRE + '{ verif_loop_sync(%d); ' % s1 + POST))
             edits.append((b + m.end(), 1, 10000, PRE + ' }' + POST))
         elif k == 'GCCAsmStmt':
             raise WeaveError('%s: inline asm in a woven function' % name)
